@@ -1,5 +1,177 @@
-import EnvVerif.Lemmas.Basic
+/-
+  Props/C02.lean — C02 "obscuring never changes a digest".
+
+  For any envelope, any target set, either mode and any action — and for whole-envelope
+  elide, encrypt_subject, encrypt, compress, compress_subject — the result has the root
+  digest of the original and every element still present has the digest of the element at
+  the same position of the original.
+
+  Hypotheses, all explicit:
+  * `Inv h e` (`WF` ∧ `Canon`).  `WF` alone is NOT enough: `elideSet_digest_needs_canon`
+    and `elideSet_panics_without_canon` below exhibit a `WF` envelope whose assertions are
+    stored out of order, on which the traversal changes the digest / fires an `assert!`.
+  * `ActOk act e` — `True` for the elide and compress actions; for the encrypt action the
+    codec fact `AadOk d` ("a message whose aad is `(digestCbor d).enc` declares digest
+    `d`") at every digest `d` occurring in `e`.  `ActOk.of_laws` derives it from the named
+    laws `AadLaw` (the fact for every 32-byte digest) and `HashValid h`.
+  Definitions used: `Step`, `Path`, `Env.at` (Lemmas/Paths.lean); `ActOk`, `AadOk`,
+  `TopHit`, `NoHitAbove` (Lemmas/ElideLemmas.lean).
+-/
+import EnvVerif.Lemmas.ElideLemmas
 namespace EnvVerif
-/-- placeholder while the property theorems are being written -/
-theorem c02_sort_asc_id {as : List Env} (hs : AscDigests as) : sortByDigest as = as := sortByDigest_of_asc hs
+open Env
+
+section
+variable (h : Hash) (A : Aead) (Z : Deflate) (T : Digest → Bool) (rev : Bool) (act : Action)
+
+/-! ### the traversal `elide_set_with_action` -/
+
+/-- the root digest is unchanged: every target set, both modes, every action, every nonce
+supply -/
+theorem elideSet_digest {e r : Env} (hi : Inv h e) (ha : ActOk act e)
+    (hr : elideSet h A Z T rev act e = .ok r) : r.digest = e.digest :=
+  elideSet_digest_inv h A Z T rev act hi ha.at_root hr
+
+example : Inv Sample.toyH Sample.e0 ∧ ActOk act Sample.e0 := ⟨Sample.inv_e0, Sample.actOk_e0 act⟩
+
+/-- every position of the result is a position of the original, and the element there
+has the digest of the original element at that position -/
+theorem elideSet_positions {e r : Env} (hi : Inv h e) (ha : ActOk act e)
+    (hr : elideSet h A Z T rev act e = .ok r) :
+    ∀ p x, r.at p = some x → ∃ y, e.at p = some y ∧ x.digest = y.digest :=
+  elideSet_positions_inv h A Z T rev act hi ha hr
+
+example : Inv Sample.toyH Sample.e0 ∧ ActOk act Sample.e0 ∧
+    ∃ r, elideSet Sample.toyH A Z Sample.T3 rev act Sample.e0 = .ok r :=
+  ⟨Sample.inv_e0, Sample.actOk_e0 act,
+    elideSet_ok_inv Sample.toyH A Z Sample.T3 rev act Sample.inv_e0 (Sample.actOk_e0 act)⟩
+
+/-- the positions of the result are prefix closed (so they form a subtree of the
+original's positions) -/
+theorem elideSet_positions_prefix_closed {r x : Env} {p q : Path} (hx : r.at (p ++ q) = some x) :
+    ∃ y, r.at p = some y :=
+  let ⟨y, hy, _⟩ := Env.at_prefix hx; ⟨y, hy⟩
+
+/-- `WF` alone does not give digest preservation: a well-formed node whose assertions are
+stored in descending order is re-sorted by `new_with_unchecked_assertions`, and its digest
+changes (hash: big-endian value of the image, so that order matters) -/
+theorem elideSet_digest_needs_canon :
+    ∃ (h : Hash) (e r : Env), WF h e ∧
+      elideSet h A Z (fun _ => false) false .elide e = .ok r ∧ r.digest ≠ e.digest :=
+  ⟨Sample.ordH, Sample.cex, _, Sample.cex_wf, Sample.cex_run A Z, Sample.cex_digest_ne⟩
+
+/-- … and one level up the changed digest fires the `assert!` of the wrapped case -/
+theorem elideSet_panics_without_canon :
+    ∃ (h : Hash) (e : Env) (s : String), WF h e ∧
+      elideSet h A Z (fun _ => false) false .elide e = .panic s :=
+  ⟨Sample.ordH, newWrapped Sample.ordH Sample.cex, _,
+    by simp only [newWrapped, WF, Sample.cex_wf, and_self], Sample.cex_wrapped_panics A Z⟩
+
+/-! ### success, error, panic -/
+
+/-- `elide_set_with_action` has no error path (no hypothesis needed) -/
+theorem elideSet_no_err (e : Env) (x : String) : elideSet h A Z T rev act e ≠ .err x :=
+  elideSet_not_err h A Z T rev act e x
+
+/-- no `assert!` / `unwrap()` on the path can fire, for ALL three actions (for `encrypt`
+under the codec hypothesis carried by `ActOk`) -/
+theorem elideSet_no_panic {e : Env} (hi : Inv h e) (ha : ActOk act e) :
+    ∃ r, elideSet h A Z T rev act e = .ok r :=
+  elideSet_ok_inv h A Z T rev act hi ha
+
+example : Inv Sample.toyH Sample.e0 ∧ ActOk act Sample.e0 := ⟨Sample.inv_e0, Sample.actOk_e0 act⟩
+
+/-- the elide action: plain `elide_set` never panics -/
+theorem elideSet_elide_no_panic {e : Env} (hi : Inv h e) :
+    ∃ r, elideSet h A Z T rev .elide e = .ok r :=
+  elideSet_ok_inv h A Z T rev .elide hi trivial
+
+/-- the compress action (after the repair of `compress().unwrap()`) never panics -/
+theorem elideSet_compress_no_panic {e : Env} (hi : Inv h e) :
+    ∃ r, elideSet h A Z T rev .compress e = .ok r :=
+  elideSet_ok_inv h A Z T rev .compress hi trivial
+
+/-- the encrypt action never panics, given the named laws -/
+theorem elideSet_encrypt_no_panic {e : Env} (hi : Inv h e) (hAad : AadLaw) (hH : HashValid h)
+    (key : Bytes) (nonce : Digest → Bytes) :
+    ∃ r, elideSet h A Z T rev (.encrypt key nonce) e = .ok r :=
+  elideSet_ok_inv h A Z T rev _ hi (ActOk.of_laws hAad hH hi _)
+
+example : Inv Sample.toyH Sample.e0 := Sample.inv_e0
+
+/-- exactly when the traversal succeeds: iff the action succeeds on every topmost hit
+element (everything else on the path — the re-derivation of assertion and node digests
+and the four `assert!`s — cannot fail) -/
+theorem elideSet_ok_iff {e : Env} (hi : Inv h e) (ha : ActOk act e) :
+    (∃ r, elideSet h A Z T rev act e = .ok r) ↔
+      ∀ p y, TopHit T rev e p y → ∃ x, obscure A Z act y = .ok x :=
+  elideSet_ok_iff_inv h A Z T rev act hi ha
+
+example : Inv Sample.toyH Sample.e0 ∧ ActOk act Sample.e0 := ⟨Sample.inv_e0, Sample.actOk_e0 act⟩
+
+/-- whatever is not a success is a panic -/
+theorem elideSet_panic_iff_not_ok (e : Env) :
+    (∃ s, elideSet h A Z T rev act e = .panic s) ↔ ¬ ∃ r, elideSet h A Z T rev act e = .ok r := by
+  cases hr : elideSet h A Z T rev act e with
+  | ok r => simp
+  | err x => exact absurd hr (elideSet_not_err h A Z T rev act e x)
+  | panic s => simp
+
+/-! ### whole-envelope operations -/
+
+/-- `elide` -/
+theorem elide_digest (e : Env) : (elide e).digest = e.digest := by
+  rw [elide_eq]; rfl
+
+/-- `compress` -/
+theorem compress_digest {e r : Env} (hr : compress Z e = .ok r) : r.digest = e.digest :=
+  compress_ok_digest Z hr
+
+/-- `compress_subject` -/
+theorem compressSubject_digest {e r : Env} (hi : Inv h e)
+    (hr : compressSubject h Z e = .ok r) : r.digest = e.digest :=
+  compressSubject_digest_inv h Z hi hr
+
+example : Inv Sample.toyH Sample.e0 := Sample.inv_e0
+
+/-- `encrypt_subject`: a successful result has the original digest (the function checks it
+with `assert_eq!`; see `encryptSubject_no_panic` for why that check cannot fail) -/
+theorem encryptSubject_digest {key nonce : Bytes} {e r : Env}
+    (hr : encryptSubject h A key nonce e = .ok r) : r.digest = e.digest :=
+  encryptSubject_digest_any h A hr
+
+/-- `encrypt_subject` cannot panic: neither `new_with_encrypted(..).unwrap()` nor the
+`assert_eq!` on the digests fires -/
+theorem encryptSubject_no_panic {key nonce : Bytes} {e : Env} (hi : Inv h e)
+    (ha : AadOk e.subject.digest) (s : String) : encryptSubject h A key nonce e ≠ .panic s :=
+  encryptSubject_not_panic_inv h A hi ha s
+
+example : Inv Sample.toyH Sample.e0 ∧ AadOk Sample.e0.subject.digest :=
+  ⟨Sample.inv_e0, Sample.aadOk_of_check (by decide +kernel)⟩
+
+/-- `encrypt` (whole envelope) succeeds, and its result is the encrypted placeholder of the
+wrapped original (given the codec fact at that digest) -/
+theorem encryptWhole_ok {key nonce : Bytes} {e : Env} (ha : AadOk (wrap h e).digest) :
+    encryptWhole h A key nonce e =
+      .ok (.encrypted (encryptWithDigest A key nonce (encode (wrap h e)) (wrap h e).digest)
+        (wrap h e).digest) := by
+  have hnew := newEncryptedUnwrap_ok_of (ha _ (encryptWithDigest_aad A key nonce (encode (wrap h e)) _))
+    "encrypt.rs:encrypt_subject_opt:new_with_encrypted.unwrap"
+  unfold encryptWhole encryptSubject
+  simp only [wrap, newWrapped] at hnew ⊢
+  rw [hnew]
+  simp [Env.digest]
+
+example : AadOk (wrap Sample.toyH Sample.e0).digest := Sample.aadOk_of_check (by decide +kernel)
+
+/-- `encrypt` (whole envelope): by construction the wrapped original, encrypted -/
+theorem encryptWhole_digest {key nonce : Bytes} {e r : Env}
+    (hr : encryptWhole h A key nonce e = .ok r) : r.digest = (wrap h e).digest := by
+  unfold encryptWhole at hr
+  cases hs : encryptSubject h A key nonce (wrap h e) with
+  | ok r' => rw [hs] at hr; cases hr; exact encryptSubject_digest_any h A hs
+  | err x => rw [hs] at hr; cases hr
+  | panic x => rw [hs] at hr; cases hr
+
+end
 end EnvVerif
